@@ -260,3 +260,12 @@ def check(program: Program, run: Run) -> None:
     run.analysed["name_building_functions"] = nfun
     if nfun < 20:
         raise AnalysisError(f"instance count below floor: name-building functions {nfun}")
+
+    # ---- (inherited from C12/R6) an alias reference that falls back to the underlying column is the same name written
+    # differently at definition and reference
+    from ..families import one_shot_reuse_sites
+    selc = program.cls("Selectable")
+    for f7, var, desc, node, why in one_shot_reuse_sites(program):
+        if f7.cls is not None and (f7.cls.is_subclass_of(selc) or f7.cls is selc) and f7.name.endswith("_sql"):
+            run.finding(f"C07/alias-reference-inconsistent:{f7.qualname}:{var}", f"{f7.qualname} decides per term whether to write the select alias or the underlying column with `{var}`, {desc} that {why}: "
+                        "the same name is written as the alias in SELECT and as another identifier in GROUP BY / ORDER BY", where=f7.loc(node), rule="inherited from C12/R6")
